@@ -460,6 +460,34 @@ class Gen:
         evs.sort(key=lambda e: 0 if e.startswith("cmds") and re.search(r"\b(connect|via)\b", e) else 1)
         return "multi " + " ; ".join(evs)
 
+    def a_zl_multi(self):
+        """ONE epoll batch with zero-length datagrams on SEVERAL client sockets, optionally behind a close / the GC that takes one of those
+        sockets away first (its datagrams die unread; the other sockets' empty data events must still come out on their own sessions)."""
+        rng, g = self.rng, self.g
+        cl = sorted(s for s, v in g.sess.items() if v[0] == "c")
+        if len(cl) < 2:
+            return self.a_connect()
+        rng.shuffle(cl)
+        pick = cl[:rng.choice([2, 2, 3])]
+        evs = []
+        k = rng.below(4)
+        if k == 0:
+            victim = rng.choice(pick)
+            evs.append("cmds close %d" % victim)
+            g.close(victim)
+        elif k == 1:
+            evs.append("gc")
+        for sid in pick:
+            items = [self.payload(big_ok=False) for _ in range(rng.choice([0, 1, 1, 2, 3]))]
+            for _ in range(rng.choice([1, 1, 2])):
+                items.insert(rng.below(len(items) + 1), "0.00")
+            evs.append("cdg %d %s" % (sid, ",".join(items)))
+        if rng.chance(1, 3) and g.lq:
+            t = self.a_dg(rng.choice(sorted(g.lq)))
+            if t:
+                evs.append(t)
+        return "multi " + " ; ".join(evs)
+
     def a_burst(self):
         return "multi cmds " + " / ".join(self.a_cmd() for _ in range(self.rng.choice([2, 2, 3, 4, 5])))
 
@@ -467,8 +495,13 @@ class Gen:
         rng, g = self.rng, self.g
         while len(self.ops) < nops:
             k = rng.below(100)
+            if self.cat == "burst" and rng.chance(1, 5) or rng.chance(1, 60):
+                t = self.a_zl_multi()
+                if t:
+                    self.ops.append(t)
+                continue
             if self.cat == "burst" and rng.chance(1, 2):
-                k = rng.choice([0, 0, 32, 70, 70, 75])        # mostly arrivals: dg, connect, cdg, multi
+                k = rng.choice([0, 0, 32, 32, 70, 70, 75])        # mostly arrivals: dg, connect, cdg, multi
             if k < 22:
                 t = self.a_dg()
             elif k < 31:
@@ -608,6 +641,8 @@ def monitor_case(c, impl):
     open_s = set()
     recv_on = {}          # peer -> session that receives this peer's datagrams on listener sockets (from data events)
     sends = []            # accepted sends not yet matched: [len, crc, peer, sid]
+    client_prev = set()   # sessions with their own (client) socket according to the implementation's previous state line
+    client_now_holder = [set()]
     for op, line in zip(c["ops"], impl):
         if line.startswith("crash:timeout") or line.startswith("hang:"):
             bad.append("T0: the engine did not come back from `%s`: %s" % (op[:80], line[:60]))
@@ -620,6 +655,8 @@ def monitor_case(c, impl):
             continue
         evs, st = pa
         atoms = atoms_of(op)
+        client_prev, client_now = client_now_holder[0], set(int(x) for x in re.findall(r"(?:^|,)(\d+)c@", st.get("s", "")))
+        client_now_holder[0] = client_now
         if op == "listenD" and evs and evs[0].startswith("L"):
             dual_l.add(evs[0][1:])
             evs = []
@@ -663,7 +700,9 @@ def monitor_case(c, impl):
                 sid = int(t[1])
                 # a client socket that existed when the batch was built; if a command of the same batch closes it, the datagram may
                 # legitimately die with the socket (optional arrival)
-                if sid in open_s and (peer_of.get(sid) is not None):
+                # (only a session that HAD its own socket when the batch was built can receive there: the implementation's previous state line says
+                # which sessions are client-socket sessions; a ServerPeer session has none, the harness sends nothing)
+                if sid in open_s and sid in client_prev and (peer_of.get(sid) is not None):
                     after = re.search(r"(^|,)%dc@" % sid, st.get("s", "")) is not None
                     if after or any(e.startswith("X%d:" % sid) for e in evs):
                         for pl in t[2].split(","):
@@ -729,7 +768,7 @@ def monitor_case(c, impl):
             for sid, dn, dcrc in datas:
                 cand = [i for i in by_key.get((dn, dcrc), []) if i not in taken]
                 if not cand and chunk is not None and chunk < MAXDG:
-                    cand = [i for i, a in enumerate(arrivals) if i not in taken and a[2] > chunk and dn == chunk][:1]   # truncated by the configured small buffer
+                    cand = [i for i, a in enumerate(arrivals) if i not in taken and a[2] > chunk and dn == chunk]   # truncated by the configured small buffer
                 if not cand and (dn, dcrc) in keyfailed:
                     bad.append("T2: a datagram whose peer key could not be formed (getnameinfo failed) was delivered on session %d: it is indexed under the EMPTY key, "
                                "which every such peer shares (op `%s`)" % (sid, op[:80]))
@@ -738,7 +777,13 @@ def monitor_case(c, impl):
                     bad.append("T2: data event D%d:%d:%d is not one of the datagrams that arrived (merged, split, truncated, altered or duplicated) (op `%s`)"
                                % (sid, dn, dcrc, op[:80]))
                     continue
-                i = cand[0]
+                # several arrivals of one op can have the same fingerprint (every zero-length datagram is (0, crc 0); one may belong to a client
+                # socket that a command / the GC of the same batch closed first, so it died unread): take the arrival this event is consistent
+                # with — same client session, or a listener arrival from the session's peer — and only if there is none the first one (which the
+                # checks below then report: an event on a session none of the matching datagrams was sent to)
+                good = [i for i in cand if (arrivals[i][0] == "C" and arrivals[i][1] == sid) or
+                        (arrivals[i][0] == "L" and peer_of.get(sid) == arrivals[i][1])]
+                i = (good or cand)[0]
                 taken.add(i)
                 a = arrivals[i]
                 if last_in_group.get(a[4], -1) > i:
